@@ -30,8 +30,20 @@ def val(x):
     if isinstance(x, sympy.Basic):
         return ("sympy", sympy.srepr(x))
     if type(x).__name__ == "RegRefTransform":
-        return ("regref", str(x.func_str), tuple(x.regrefs), sympy.srepr(x.expr))
+        return ("regref", str(x.func_str), tuple(x.regrefs), sympy.srepr(x.expr), _probe(x))
     return ("obj", type(x).__name__, repr(x)[:80])
+
+
+def _probe(tr):
+    """what the transform's function computes at fixed concrete points (its behaviour, not only its description)"""
+    out = []
+    for base in (0.75, -1.375):
+        try:
+            v = complex(tr.func(*[base + 0.5 * k for k in range(len(tr.regrefs))]))
+            out.append("%.9g%+.9gj" % (v.real, v.imag))
+        except Exception as e:  # noqa
+            out.append("raises " + type(e).__name__)
+    return ("probe", tuple(out))
 
 
 def _finite(x):
